@@ -8,35 +8,45 @@ DRIVER = "C13"
 GENERATED = []
 SOURCES = ["src/allmydata/mutable/filenode.py", "src/allmydata/nodemaker.py", "src/allmydata/dirnode.py"]
 DESIGN_REF = "DESIGN.md §2 C13"
-TECHNIQUE = ("Lean 4 invariant proof over an event-system model of the Deferred-chain serializer (all schedules, any length); "
-             "differential correspondence of scripted schedules (requests, completions, colliding attempts) against "
-             "MutableFileNode._do_serialized with the real MutableFileVersion._modify_and_retry as the callable, and against NodeMaker; "
-             "monitor on real concurrent whole-file operations and directory edits on the in-process grid, including collisions "
-             "with a second client that force modify() round its retry loop")
-LEVEL_TEXT = ("Proved for every event schedule of the model: operations start strictly after every earlier-requested operation "
-              "produced its result -- an operation being all of its attempts: no further attempt of an operation begins after its "
-              "result or after a later operation started --, a failure never blocks later operations, serialized read-modify-write "
-              "edits are never lost, "
-              "and a mutable cap maps to one node object. The model is tied to the code by replaying seeded schedules on the real "
-              "_do_serialized / create_from_cap and comparing event logs. Partial: Twisted's Deferred and foolscap's eventual queue "
-              "are modelled, not verified; WeakValueDictionary collection timing is not modelled.")
-LEVEL_NOTE = ("Lean kernel + standard axioms; hand-written model of the callback chain; Twisted Deferred semantics and foolscap "
-              "eventually() assumed as modelled (sampled by the correspondence run).")
-RULE = ("(a) seeded schedules of request/finish/turn events (≤40 events) on a real MutableFileNode._do_serialized with instrumented "
-        "callables, log compared with the driver after the whole schedule; (b) seeded create_from_cap call sequences on a real NodeMaker; "
-        "(c) batches of real overwrite/modify/download operations and of directory edits issued concurrently on the grid under seeded "
-        "delivery orders; (d) two clients: client A requests 2-4 operations (file modify / failing modify / download; directory "
-        "set_uri / delete / list) back to back on one node, the share writes of one of them are held in the scheduler while client B "
-        "completes a competing write, then released (UncoordinatedWriteError, default BackoffAgent on the virtual clock), policies "
-        "random/fifo/lifo: modifier invocations, map updates, retrieves, publishes, inner and caller-visible completions are "
-        "recorded; the shares on disk at the moment an operation reports success are read back by a fresh client. "
-        "A case is one schedule/batch; distinct = distinct schedule text; non-trivial = at least two requests overlap "
-        "(a request arrives while another operation is in progress).")
+TECHNIQUE = ("Lean 4 invariant proof (19 theorems) over an event-system model of the Deferred-chain serializer -- requests, completions, "
+             "colliding attempts of modify()'s retry loop, eventual-queue turns, requests made from inside a running body -- for all "
+             "schedules of any length; a NodeMaker memoisation model; a routing table of which file / directory operations enter the "
+             "serializer. Differential correspondence: scripted schedules on the real MutableFileNode._do_serialized with the real "
+             "MutableFileVersion._modify_and_retry as the callable; create_from_cap sequences on a real NodeMaker; the routing table "
+             "against instrumented real nodes. Monitor on real concurrent whole-file operations and directory edits on the in-process "
+             "grid, collisions with a second client, and read-only nodes whose first read attempt fails")
+LEVEL_TEXT = ("Proved for every event schedule of the model: starts_and_finishes_alternate, serial_order, successes_in_request_order "
+              "(one at a time, in request order); no_start_before_last_attempt, no_attempt_after_finish (an operation is all of its "
+              "attempts); failed_op_does_not_block and idle_means_all_done for operation bodies that do not enqueue on their own node "
+              "(NoInner), no_inner_never_blocked; self_enqueue_deadlocks / self_enqueue_counterexample (a body that does blocks the node "
+              "for ever: seed C13-e); no_lost_edit, no_lost_directory_edit (contents = successful modifiers folded in request order); "
+              "same_cap_same_node, same_cap_same_node_any_hint, cache_stable (one node object per cap string); "
+              "every_node_op_serialized_none_reenters, every_directory_op_serialized, routing_tables_complete (finite routing table, "
+              "compared with the code by instrumentation). Correspondence/monitor only: that DirectoryNode keeps using the one file "
+              "node; each directory edit as a name-map modifier is C20, competing writers from other clients C12. Not modelled: "
+              "WeakValueDictionary collection between two lookups. Twisted's Deferred and foolscap's eventual queue are modelled, not "
+              "verified.")
+LEVEL_NOTE = ("Lean kernel + standard axioms (propext, Classical.choice, Quot.sound); hand-written model of the callback chain; Twisted "
+              "Deferred semantics and foolscap eventually() assumed as modelled (sampled by the correspondence run); no open finding.")
+RULE = ("Fixed corpus first: read-only nodes (file, directory) whose first read attempt fails, 2-3 concurrent reads + a later read + a read "
+        "after restoring the shares; the routing table against instrumented nodes; four fixed schedules. Then: (a) seeded schedules of "
+        "request / finish / turn / colliding-attempt / give-up / request-from-inside events (<=40 events) on a real "
+        "MutableFileNode._do_serialized, log compared with the driver after the whole schedule; (b) seeded create_from_cap call "
+        "sequences on a real NodeMaker; (c) batches of real overwrite/modify/download operations and of directory edits issued "
+        "concurrently on the grid under seeded delivery orders; (d) two clients: client A requests 2-4 operations back to back on one "
+        "node, the share writes of one of them are held while client B completes a competing write, then released "
+        "(UncoordinatedWriteError, default BackoffAgent on the virtual clock), policies random/fifo/lifo: modifier invocations, map "
+        "updates, retrieves, publishes, inner and caller-visible completions are recorded; the shares on disk at the moment an "
+        "operation reports success are read back by a fresh client; (e) seeded read-only retry scenarios. A case is one "
+        "schedule/batch/scenario; distinct = distinct schedule text or parameters; non-trivial = at least two requests overlap.")
 TRUSTED = ["lean/Tahoe/Mutable/Serializer.lean is a hand model of _do_serialized on a model of Twisted's callback chain",
-           "harness/grid.py (virtual clock, seeded delivery) when driving real operations"]
+           "harness/grid.py (virtual clock, seeded delivery) when driving real operations",
+           "the instrumentation wrappers around real node methods in this module"]
 ASSUMPTIONS = ["Twisted Deferred: callbacks added to a fired, unpaused Deferred run at once; a callback returning an unfired Deferred pauses the chain",
                "foolscap eventually(): FIFO, runs in a later turn, returns None",
-               "serialized callables do not re-enter _do_serialized (the code forbids it)"]
+               "failed_op_does_not_block: no operation body enqueues on its own node's serializer and waits (NoInner); for the real "
+               "operations this is the routing table's bodyEnqueues column, compared with the code by instrumentation",
+               "no garbage collection of the node cache between two lookups of one cap string"]
 
 
 # ----------------------------------------------------------------------------- (a) scripted schedules
